@@ -31,6 +31,16 @@ real parsers read the rendered file, `add_precursor_quants` gets the data frame,
 `PgFdr.C12.quantifyDesign` on the harness's own normalisation of the lines, and every per-experiment column is
 looked up BY HEADER NAME and compared with the recomputation for the experiment of that name.
 
+Evidence files with DIFFERENT SILAC / reporter columns (second audit, B2): `num_silac_channels` / `num_tmt_channels` are
+fixed by the first parsed row while every row carries the values of its own file's columns.  ~8 % of the in-process
+cases draw 2-3 files with independently drawn layouts (`case["layouts"]`, one entry per file).  The real code then raises
+`IndexError` in `_get_intensities` (mapped to `silac_index_out_of_range`), `ValueError` / `TypeError` in
+`_get_tmt_intensities` (`tmt_shape_mismatch`), or silently writes SILAC values into the slots of the following
+experiments / broadcasts a single reporter value into all reporter cells.  The model follows the code in all of these;
+the oracle's direct recomputation does NOT (a value under `Intensity E2` that stems from an E1 row is wrong): such
+cases are counted as `mixed_layout_spill` and judged by the oracle only when known_findings.json registers the
+predicate `kf_mixed_layout_spill` (candidate known finding, notes/C12.md last addendum).
+
 Numbers: intensities are small dyadic rationals (integers and halves), PEPs are k/1024, so every
 float sum the code performs is exact; iBAQ quotients are compared after one correctly rounded
 division of the model's exact rational.  A case whose running PEP mean rounds onto the FDR level
@@ -109,8 +119,11 @@ def render_evidence(path, rows, layout):
     hdr.append("id")
     if S:
         hdr += ["Intensity " + c for c in SILAC_NAMES[S]]
-    for kind in ("Reporter intensity corrected ", "Reporter intensity ", "Reporter intensity count "):
-        hdr += [kind + str(i) for i in range(1, T + 1)]
+    if layout.get("tmt_single"):  # a file with ONE column starting with "reporter intensity ": numpy broadcasts it
+        hdr += ["Reporter intensity 1"]
+    else:
+        for kind in ("Reporter intensity corrected ", "Reporter intensity ", "Reporter intensity count "):
+            hdr += [kind + str(i) for i in range(1, T + 1)]
     with open(path, "w", newline="") as f:
         w = csv.writer(f, delimiter="\t")
         w.writerow(hdr)
@@ -145,6 +158,24 @@ def model_row(r):
 
 def all_rows(case):
     return [r for f in case["files"] for r in f]
+
+
+def file_layout(case, i):
+    """the header layout of the i-th evidence file: case["layout"], with the SILAC / reporter columns of
+    case["layouts"][i] when the files of the set have different headers"""
+    lays = case.get("layouts")
+    if not lays:
+        return case["layout"]
+    return dict(case["layout"], **lays[i])
+
+
+def n_reporter(lay):
+    return 1 if lay.get("tmt_single") else 3 * lay["tmt"]
+
+
+def mixed_layouts(case):
+    lays = case.get("layouts")
+    return bool(lays) and len({(l["silac"], n_reporter(l)) for l in lays}) > 1
 
 
 # ----------------------------------------------------------------------------------------
@@ -390,6 +421,7 @@ def recompute(case):
         return r["pp"] == "nan" or passes(r)
 
     out_groups = []
+    silac_raises = tmt_raises = spill = False
     for gi, g in enumerate(groups):
         if not att[gi]:
             continue
@@ -405,12 +437,22 @@ def recompute(case):
                 idt.append("By matching")
             else:
                 idt.append("")
+        # rows of a file with other SILAC / reporter columns than the first parsed row: the code raises here ...
+        for r in usedq:
+            if num_val(r["int"]) is not None and r["silac"] and exps.index(r["exp"]) * (1 + S) + len(r["silac"]) >= len(exps) * (1 + S):
+                silac_raises = True
+            if n_tmt > 0 and len(r["tmt"]) not in (3 * n_tmt, 1):
+                tmt_raises = True
+            # ... or writes values where they do not belong (no exception): more SILAC values than slots per
+            # experiment, a single reporter value broadcast into all reporter cells
+            if (num_val(r["int"]) is not None and len(r["silac"]) > S) or (n_tmt > 0 and len(r["tmt"]) == 1):
+                spill = True
         intens = []
         for e in exps:
             sel = [r for r in usedq if r["exp"] == e and num_val(r["int"]) is not None]
             intens.append(sum((unrat(num_val(r["int"])) for r in sel), Fraction(0)))
-            for k in range(S):
-                intens.append(sum((unrat(num_val(r["silac"][k])) for r in sel), Fraction(0)))
+            for k in range(S):  # the direct recomputation: channel k of the rows of THIS experiment that have one
+                intens.append(sum((unrat(num_val(r["silac"][k])) for r in sel if k < len(r["silac"])), Fraction(0)))
         total = sum(intens[:: S + 1], Fraction(0))
         npeps = [ibaq.get(p, 0) for p in g]
         lead = max(1, npeps[0])
@@ -418,7 +460,7 @@ def recompute(case):
         if n_tmt > 0:
             for e in exps:
                 for k in range(3 * n_tmt):
-                    tmt.append(sum((unrat(num_val(r["tmt"][k])) for r in usedq if r["exp"] == e), Fraction(0)))
+                    tmt.append(sum((unrat(num_val(r["tmt"][k])) for r in usedq if r["exp"] == e and k < len(r["tmt"])), Fraction(0)))
         out_groups.append(
             {
                 "ids": list(g),
@@ -434,7 +476,12 @@ def recompute(case):
                 "evidenceIds": sorted(r["id"] for r in usedq),
             }
         )
-    return {
+    # the summed-intensity generator runs before the reporter generator; an exception in any group ends the run
+    if silac_raises:
+        return {"err": "silac_index_out_of_range"}
+    if tmt_raises:
+        return {"err": "tmt_shape_mismatch"}
+    out = {
         "experiments": exps,
         "nSilac": n_silac,
         "nTmt": n_tmt,
@@ -444,6 +491,22 @@ def recompute(case):
         "groups": out_groups,
         "_used_rows": sum(1 for gi in range(len(groups)) for r in att[gi]),
     }
+    if spill:
+        out["_spill"] = True
+    return out
+
+
+def spill_registered():
+    """is the candidate finding `kf_mixed_layout_spill` registered in known_findings.json?  Only then does the oracle
+    state the property on the cases it concerns (they would otherwise be unexplained violations on the unchanged tree)"""
+    try:
+        import json
+
+        with open(os.path.join(str(lib.VERIF), "known_findings.json")) as f:
+            return any(k.get("predicate") == "kf_mixed_layout_spill" and k.get("status") == "known"
+                       for k in json.load(f).get("findings", []))
+    except Exception:
+        return False
 
 
 def round_quotients(view):
@@ -459,6 +522,7 @@ def round_quotients(view):
         g["ibaq"] = [rat(rat_to_float(x)) for x in g["ibaq"]]
         v["groups"].append(g)
     v.pop("_used_rows", None)
+    v.pop("_spill", None)
     return v
 
 
@@ -575,7 +639,7 @@ def run_cli(case):
         evs = []
         for i, rows in enumerate(case["files"]):
             p = os.path.join(tmp, f"evidence_{i}.txt")
-            render_evidence(p, rows, case["layout"])
+            render_evidence(p, rows, file_layout(case, i))
             evs.append(p)
         out = os.path.join(tmp, "out.txt")
         level = rat_to_float(case["level"])
@@ -735,7 +799,10 @@ class P(Prop):
     rule = (
         "evidence file sets rendered from abstract rows: 1-2 files, 0-14 rows, 1-3 experiments, optional Fraction / "
         "Experiment columns, charges 2-3, 8 peptides (one modified form), MBR rows (empty PEP), NaN / empty intensities, "
-        "label free / SILAC 2 / SILAC 3 / (rarely 1 = rejected) / TMT 1-2 channels; 1-4 reported groups over 6 base "
+        "label free / SILAC 2 / SILAC 3 / (rarely 1 = rejected) / TMT 1-2 channels; in ~8 % of the cases the 2-3 files of the set "
+        "have DIFFERENT SILAC / reporter columns (label free, L only, L/H, L/M/H; 0-2 reporter channels or a single reporter "
+        "column), so that the code raises IndexError / ValueError / TypeError in a column loop or writes values into the "
+        "slots of other experiments; 1-4 reported groups over 6 base "
         "proteins with REV__/rev_/CON__ variants, rows unique / shared / partly unknown / decoy-mixed; PSM FDR levels on "
         "and off the attained running means; in 30 % of the cases the PEPs come from clusters around non-dyadic values "
         "(0.1, 0.2, 0.0123456789, ...) whose members differ only beyond the 7th significant digit (not representable in "
@@ -751,6 +818,11 @@ class P(Prop):
         "for the non-dyadic PEP clusters a running mean of >= 2 values within 2^-40 (relative) of the level is a near tie (skipped, counted)",
         "csv/float parsing of the rendered evidence fields returns the rendered doubles (repr round trip)",
         "only discard_shared_peptides=True (hard-coded in do_quantification) is modelled",
+        "evidence files with different SILAC / reporter columns: the implementation's IndexError in _get_intensities and "
+        "ValueError (broadcast) / TypeError in _get_tmt_intensities are EXPECTED exceptions (enums silac_index_out_of_range, "
+        "tmt_shape_mismatch), recognised by the raising function's name; where no exception occurs and values land in other "
+        "experiments' slots the oracle is undecided until known_findings.json registers kf_mixed_layout_spill (the "
+        "correspondence with the model still compares every value)",
         "experimental design: the pandas parsing and normalize_experimental_design are restated by the harness (normalise_design: "
         "file stem, empty Experiment = stem, Fraction printed as the int / float pandas holds); names are non-numeric and none of "
         "pandas' NA spellings; the model starts from the normalised lines",
@@ -796,10 +868,29 @@ class P(Prop):
         pep_grid = rng.choice([64, 1024, 1024])
         close_bases = rng.sample(CLOSE_BASES, rng.choice([1, 2, 2, 3])) if rng.random() < 0.3 else None
         nfiles = rng.choice([1, 1, 1, 2])
+        # ~8 %: the evidence files of the set have DIFFERENT SILAC / reporter columns (the channel numbers of the run are
+        # those of the first parsed row, every row carries the values of its own file)
+        layouts = None
+        if rng.random() < 0.08:
+            nfiles = rng.choice([2, 2, 3])
+            for _ in range(20):
+                layouts = []
+                for _fi in range(nfiles):
+                    l = {"silac": rng.choice([0, 0, 0, 2, 2, 3, 1]), "tmt": rng.choice([0, 0, 0, 1, 2]), "tmt_single": False}
+                    if l["tmt"] == 0 and rng.random() < 0.12:
+                        l["tmt_single"] = True  # one "Reporter intensity 1" column only
+                    layouts.append(l)
+                if len({(l["silac"], n_reporter(l)) for l in layouts}) > 1:
+                    break
+            layout = dict(layout, silac=layouts[0]["silac"], tmt=layouts[0]["tmt"])  # labels: the first file's columns
+            if rng.random() < 0.6 and layout["has_experiment"]:
+                # room for values to land in a later experiment
+                exps = rng.sample(["E1", "E2", "E10", "b", "B"], max(len(exps), rng.choice([3, 4, 5])))
         files = []
         next_id = 0
         for fi in range(nfiles):
             rows = []
+            flay = dict(layout, **layouts[fi]) if layouts else layout
             for _ in range(rng.choice([0, 1, 2, 3, 4, 5, 6, 7, 8, 10, 14]) // nfiles + (1 if rng.random() < 0.5 else 0)):
                 t = rng.random()
                 if groups and t < 0.55:  # unique: proteins of one group
@@ -848,9 +939,9 @@ class P(Prop):
                     "pp": pp,
                     "silac": [
                         ("empty" if rng.random() < 0.1 else rat(Fraction(rng.randint(0, 5000), rng.choice([1, 1, 2]))))
-                        for _ in range(layout["silac"])
+                        for _ in range(flay["silac"])
                     ],
-                    "tmt": [rat(Fraction(rng.randint(0, 3000), rng.choice([1, 1, 2]))) for _ in range(3 * layout["tmt"])],
+                    "tmt": [rat(Fraction(rng.randint(0, 3000), rng.choice([1, 1, 2]))) for _ in range(n_reporter(flay))],
                 }
                 prev = [x for f in files for x in f] + rows
                 if prev and rng.random() < 0.35:  # another run of an earlier precursor (often match-between-runs)
@@ -879,6 +970,8 @@ class P(Prop):
             level = rng.choice([0.0, 0.001, 0.01, 0.01, 0.05, 0.1, 0.25, 1.0])
         ibaq = [[p, rng.choice([0, 0, 1, 2, 3, 7, 12])] for p in sorted(set(reported)) if rng.random() < 0.8]
         case = {"files": files, "groups": groups, "level": rat(level), "ibaq": ibaq, "layout": layout}
+        if layouts:
+            case["layouts"] = layouts
         if rng.random() < 0.35:
             self._add_design(case, rng)
         return case
@@ -945,7 +1038,7 @@ class P(Prop):
             paths = []
             for i, rows in enumerate(case["files"]):
                 p = os.path.join(tmp, f"evidence_{i}.txt")
-                render_evidence(p, rows, case["layout"])
+                render_evidence(p, rows, file_layout(case, i))
                 paths.append(p)
             pgrs = results.ProteinGroupResults(
                 [
@@ -1023,11 +1116,30 @@ class P(Prop):
                 return orig_retain(precursor_list, post_err_prob_cutoff, *a, **kw)
 
             wbase._retain_only_identified_precursors = spy_retain
+            def raised_in(e, func):
+                import traceback
+
+                tb = traceback.extract_tb(e.__traceback__)
+                return bool(tb) and tb[-1].name == func
+
             try:
                 writer.append_quant_columns(pgrs, post_err_probs, level)
+            except IndexError as e:
+                # rows with more SILAC values than the first parsed row has: `intensities[e*(1+S)+k+1] += …` beyond the list
+                if raised_in(e, "_get_intensities") and "list index out of range" in str(e):
+                    return {"err": "silac_index_out_of_range"}
+                raise
             except ValueError as e:
                 if "SILAC channels" in str(e):
                     return {"err": "bad_silac_channels"}
+                # a reporter vector of another length than the first parsed row's (numpy: shapes (3T,) (n,))
+                if raised_in(e, "_get_tmt_intensities") and "could not be broadcast" in str(e):
+                    return {"err": "tmt_shape_mismatch"}
+                raise
+            except TypeError as e:
+                # a row without reporter columns (`tmt_intensities is None`) in a run with reporter channels
+                if raised_in(e, "_get_tmt_intensities"):
+                    return {"err": "tmt_shape_mismatch"}
                 raise
             finally:
                 wbase._retain_only_identified_precursors = orig_retain
@@ -1092,6 +1204,10 @@ class P(Prop):
                 "cutoffDouble": cutoff_double,
                 "attached": attached,
                 "groups": groups,
+                # the header list the real generators built (exact strings, in order): compared with the model's
+                # CliQuant.quantHeaders, the list the Lean theorems `cells_under_named_headers` /
+                # `design_cells_under_named_headers` locate the per-experiment cells in
+                "headers": [str(h) for h in pgrs.headers],
             }
         finally:
             shutil.rmtree(tmp, ignore_errors=True)
@@ -1161,8 +1277,14 @@ class P(Prop):
             return ("written proteinGroups.txt differs from the recomputation (expected vs written) at " + d) if d else None
         if self._near_tie(case):
             return None
-        want = with_cutoff_obs(round_quotients(recompute(case)))
-        if "cutoffSeen" in impl_out:
+        rec = recompute(case)
+        if rec.get("_spill") and not spill_registered():
+            # values of rows with more SILAC / other reporter columns than the first parsed row land in columns they do
+            # not belong to, without an exception: the direct recomputation below differs from the code (and the model,
+            # which follows the code).  Candidate known finding `kf_mixed_layout_spill`; judged once it is registered.
+            return None
+        want = with_cutoff_obs(round_quotients(rec))
+        if "cutoffSeen" in impl_out and "cutoffSeen" in want:
             # the value handed to the precursor filter and to the columns must be exactly one of the finite PEPs of the
             # identified target precursors, or 1.0 (recomputed here from the evidence rows, exact rationals)
             fin = {unrat(p) for p in want.get("peps", []) if not isinstance(p, str)}
@@ -1177,6 +1299,8 @@ class P(Prop):
             # whether the value is a double is part of the correspondence (model view), not of the oracle: a single
             # precision cutoff with a representable value is a hazard, a failing input needs a wrong value / wrong rows
             want["cutoffDouble"] = impl_out["cutoffDouble"]
+        if "headers" in impl_out and "groups" in want:
+            want["headers"] = impl_out["headers"]  # header strings are part of the correspondence (model view) only
         d = first_diff(want, impl_out, "out")
         if d:
             return "recomputation from the evidence rows differs (expected vs implementation) at " + d
@@ -1193,6 +1317,14 @@ class P(Prop):
                     if len(gl) > 1:
                         return f"evidence row id {i} is attached more than once (groups {gl})"
         return None
+
+    def kf_mixed_layout_spill(self, case, impl_out, rec):
+        """signature of the candidate known finding: evidence files with different SILAC / reporter columns, no exception,
+        and a used precursor with more SILAC values than the first parsed row has (they are added to the following
+        experiments' slots) or a single reporter value in a run with reporter channels (broadcast into every cell)"""
+        if case.get("cli") or not isinstance(impl_out, dict) or "groups" not in impl_out:
+            return False
+        return bool(recompute(case).get("_spill"))
 
     def nontrivial(self, case, impl_out):
         if case.get("cli"):
@@ -1211,6 +1343,14 @@ class P(Prop):
         f.append("silac=%d" % lay["silac"])
         f.append("tmt=%d" % lay["tmt"])
         f.append("files=%d" % len(case["files"]))
+        if mixed_layouts(case):
+            f.append("mixed_layouts")
+            f.append("mixed_layouts:first_file_silac=%d" % file_layout(case, 0)["silac"])
+            try:
+                if recompute(case).get("_spill"):
+                    f.append("mixed_layout_spill(candidate finding, oracle %s)" % ("on" if spill_registered() else "undecided"))
+            except Exception:
+                pass
         n = len(all_rows(case))
         f.append("rows=%s" % (n if n < 8 else "8+"))
         if any(r["pp"] == "nan" for r in all_rows(case)):
@@ -1296,9 +1436,15 @@ class P(Prop):
                 yield dict(case, files=[rows[:i] + rows[i + 1 :]])
             return
         files = case["files"]
+        lays = case.get("layouts")
         for fi, rows in enumerate(files):
             if len(files) > 1:
-                yield dict(case, files=files[:fi] + files[fi + 1 :])
+                c = dict(case, files=files[:fi] + files[fi + 1 :])
+                if lays:
+                    c["layouts"] = lays[:fi] + lays[fi + 1 :]
+                    if fi == 0:
+                        c["layout"] = dict(case["layout"], **{k: v for k, v in lays[1].items()})
+                yield c
             for i in range(len(rows)):
                 yield dict(case, files=files[:fi] + [rows[:i] + rows[i + 1 :]] + files[fi + 1 :])
         for i in range(len(case["groups"])):
@@ -1314,10 +1460,18 @@ class P(Prop):
                 if l["name"] != design_stem(l["name"]):
                     yield dict(case, design=dict(d, lines=d["lines"][:i] + [dict(l, name=design_stem(l["name"]))] + d["lines"][i + 1 :]))
         lay = case["layout"]
-        if lay["tmt"]:
-            yield dict(case, layout=dict(lay, tmt=0), files=[[dict(r, tmt=[]) for r in rows] for rows in files])
-        if lay["silac"]:
-            yield dict(case, layout=dict(lay, silac=0), files=[[dict(r, silac=[]) for r in rows] for rows in files])
+        if lays:
+            if any(n_reporter(l) for l in lays):
+                yield dict(case, layouts=[dict(l, tmt=0, tmt_single=False) for l in lays],
+                           files=[[dict(r, tmt=[]) for r in rows] for rows in files])
+            if any(l["silac"] for l in lays):
+                yield dict(case, layouts=[dict(l, silac=0) for l in lays],
+                           files=[[dict(r, silac=[]) for r in rows] for rows in files])
+        else:
+            if lay["tmt"]:
+                yield dict(case, layout=dict(lay, tmt=0), files=[[dict(r, tmt=[]) for r in rows] for rows in files])
+            if lay["silac"]:
+                yield dict(case, layout=dict(lay, silac=0), files=[[dict(r, silac=[]) for r in rows] for rows in files])
         if case["ibaq"]:
             yield dict(case, ibaq=[])
         for fi, rows in enumerate(files):
